@@ -313,10 +313,30 @@ func (w *LWorld) genFile(r *core.PRNG, p *LPkg, lf *LFile, fidx, ver int, deps [
 		m := mark("top", k)
 		tops = append(tops, m)
 		if useHost {
-			if r.Bool() {
+			switch r.Intn(5) {
+			case 0, 1:
 				body = append(body, fmt.Sprintf("var v%d_%d = host.Mark(%q)", fidx, k, m))
-			} else {
+			case 2:
 				body = append(body, fmt.Sprintf("host.Mark(%q)", m))
+			default:
+				// package-level code with block-scoped variables (it runs once, like any other)
+				n := 1 + r.Intn(3)
+				for j := 0; j < n; j++ {
+					call := fmt.Sprintf("sink%d_%d = sink%d_%d + 1", fidx, k, fidx, k)
+					if j == 0 && n > 1 {
+						body = append(body, fmt.Sprintf("var sink%d_%d = 0", fidx, k))
+					}
+					if j == n-1 {
+						call = fmt.Sprintf("host.Mark(%q)", m)
+					}
+					v := fmt.Sprintf("b%d_%d_%d", fidx, k, j)
+					body = append(body, core.Pick(r, []string{
+						fmt.Sprintf("if %s := 1; %s > 0 { %s }", v, v, call),
+						fmt.Sprintf("for %s := 0; %s < 1; %s++ { %s }", v, v, v, call),
+						fmt.Sprintf("for _, %s := range []int{7} { if %s > 0 { %s } }", v, v, call),
+						fmt.Sprintf("for %s, w%s := range []int{7} { if %s + w%s > 0 { %s } }", v, v, v, v, call),
+					}))
+				}
 			}
 		} else {
 			body = append(body, fmt.Sprintf("var v%d_%d = %d", fidx, k, k))
